@@ -88,7 +88,12 @@ func TestPropServiceTimeouts(t *testing.T) {
 		n := rapid.IntRange(0, 5).Draw(rt, "nsteps")
 		var steps []tstep
 		for i := 0; i < n; i++ {
-			steps = append(steps, tstep{D: rapid.SampledFrom([]int{0, 101, 101, 401, 2001}).Draw(rt, "d"), W: rapid.SampledFrom([]int{2, 40, 100, 300, 1000}).Draw(rt, "w")})
+			// (any odd number of milliseconds, besides the fixed ones)
+			d := rapid.SampledFrom([]int{0, 101, 101, 401, 2001}).Draw(rt, "d")
+			if rapid.Bool().Draw(rt, "anyD") {
+				d = 2*rapid.IntRange(0, 10000).Draw(rt, "dHalf") + 1
+			}
+			steps = append(steps, tstep{D: d, W: rapid.SampledFrom([]int{2, 40, 100, 300, 1000}).Draw(rt, "w")})
 		}
 		var msg string
 		func() {
@@ -124,6 +129,9 @@ func TestPropConcurrentServiceTimeouts(t *testing.T) {
 		durs := make([]time.Duration, clients)
 		for i := range durs {
 			durs[i] = time.Duration(rapid.SampledFrom([]int{20000, 30001, 123456, 7000000, 99999, 1000000, 45678, 20500}).Draw(rt, "d")) * time.Millisecond
+			if rapid.Bool().Draw(rt, "anyD") {
+				durs[i] = time.Duration(rapid.IntRange(20000, 90000).Draw(rt, "dMs")) * time.Millisecond
+			}
 		}
 		s := res.NewService("svc")
 		s.SetLogger(nil)
